@@ -162,6 +162,48 @@ class QueueDriver(InstructionGenerator):
         return self, tuple(out)
 
 
+class ChargeDriver(InstructionGenerator):
+    """keeps vehicles charging: plugs idle vehicles standing at a station into one of its plugs they can use (any of
+    them - slow, fast, weaker or stronger than the vehicle accepts), sends the others to a station, unplugs now and
+    then.  A pure function of (seed, state)."""
+
+    def __init__(self, seed: int, emit: Optional[Callable[[Dict[str, Any]], None]] = None, label: str = "ChargeDriver"):
+        self.seed, self.emit, self.label = seed, emit, label
+
+    @property
+    def name(self) -> str:
+        return self.label
+
+    def generate_instructions(self, simulation_state, environment):
+        sim = simulation_state
+        rng = random.Random(f"{self.seed}:charge:{int(sim.sim_time)}")
+        out = []
+        stations = [sim.stations[k] for k in sorted(sim.stations.keys())]
+        for v in sim.get_vehicles():
+            act = type(v.vehicle_state).__name__
+            r = rng.random()
+            here = [s for s in stations if s.geoid == v.geoid]
+
+            def usable(s):
+                return [c for c in sorted(s.state.keys()) if environment.chargers[c].energy_type in v.energy]
+
+            if act == "ChargingStation":
+                if r < 0.08:
+                    out.append(IdleInstruction(v.id))
+            elif act in ("Idle", "ReserveBase"):
+                if here and usable(here[0]) and r < 0.7:
+                    out.append(ChargeStationInstruction(v.id, here[0].id, rng.choice(usable(here[0]))))
+                elif not here and stations and r < 0.3:
+                    s = rng.choice(stations)
+                    if usable(s):
+                        out.append(DispatchStationInstruction(v.id, s.id, rng.choice(usable(s))))
+        if self.emit:
+            from hv.tracer import project_instruction
+
+            self.emit({"ev": "gen", "name": self.label, "instrs": [project_instruction(i) for i in out]})
+        return self, tuple(out)
+
+
 class CountingGenerator(InstructionGenerator):
     """a STATEFUL controller in the functional style hive expects: it returns an updated copy of itself every step and
     acts on every third call (repositions the first idle vehicle).  Splitting a run must carry its state along."""
@@ -349,9 +391,45 @@ def gen_energy_world(rng: random.Random, n_steps: int, dt: Optional[int] = None)
         for s in stations:
             for (cid, _, _) in s["plugs"]:
                 prices.append({"time": t, "target": s["id"], "charger_id": cid, "price": rng.choice([0.0, 0.013, 0.2, 0.45, 0.9, -0.15])})     # incl. a tariff that pays the driver
-    return {"name": "energy", "dt": dt, "start": 0, "end": dt * n_steps, "cancel": max(600, 5 * dt), "vehicles": vehicles,
-            "requests": requests, "stations": stations, "bases": bases, "prices": prices, "price_key": "station_id",
-            "rate": (2.2, 1.6, 5.0), "focus": "energy"}
+    w = {"name": "energy", "dt": dt, "start": 0, "end": dt * n_steps, "cancel": max(600, 5 * dt), "vehicles": vehicles,
+         "requests": requests, "stations": stations, "bases": bases, "prices": prices, "price_key": "station_id",
+         "rate": (2.2, 1.6, 5.0), "focus": "energy"}
+    if rng.random() < 0.5:
+        # powertrain and charger definitions of the scenario's own: a battery whose charge curve still accepts real power
+        # when nearly full (integrated in slices of 60 or 300 s), and fast plugs of several powers - weaker and stronger
+        # than what the vehicles accept - side by side
+        w["mechatronics"] = {
+            "leaf_50": {"mechatronics_type": "bev", "powercurve_file": "normalized.yaml", "powertrain_file": "normalized-electric.yaml",
+                        "battery_capacity_kwh": 50, "nominal_max_charge_kw": 50, "charge_taper_cutoff_kw": 10,
+                        "nominal_watt_hour_per_mile": 225, "idle_kwh_per_hour": 0.8},
+            "toyota_corolla": {"mechatronics_type": "ice", "tank_capacity_gallons": 10, "idle_gallons_per_hour": 0.2,
+                               "powertrain_file": "normalized-gasoline.yaml", "nominal_miles_per_gallon": 30},
+            "taper_60": {"mechatronics_type": "bev", "powercurve_file": "late_taper.yaml", "powertrain_file": "normalized-electric.yaml",
+                         "battery_capacity_kwh": 60, "nominal_max_charge_kw": 120, "charge_taper_cutoff_kw": 10,
+                         "nominal_watt_hour_per_mile": 250, "idle_kwh_per_hour": 0.9},
+        }
+        w["extra_files"] = {"powercurve/late_taper.yaml": {
+            "name": "late_taper", "power_type": "electric", "step_size_seconds": rng.choice([60, 300]), "type": "tabular",
+            "power_curve": [{"power_kw": 1.0, "energy_kwh": 0.0}, {"power_kw": 1.0, "energy_kwh": 0.8},
+                            {"power_kw": 0.4, "energy_kwh": 1.0}]}}
+        w["chargers"] = [("LEVEL_1", "electric", 3.3, "kilowatts"), ("LEVEL_2", "electric", 7.2, "kilowatts"),
+                         ("DCFC", "electric", 50, "kilowatts"), ("GAS_PUMP", "gasoline", 0.16, "gal_per_second"),
+                         ("DC20", "electric", 20, "kilowatts"), ("DC150", "electric", 150, "kilowatts")]
+        stations[0]["plugs"] += [("DC20", 2, True), ("DC150", 2, True)]
+        stations[1]["plugs"] += [("DC20", 1, True), ("DC150", 1, True)]
+        for v in vehicles:
+            if v["mech"] == "leaf_50" and rng.random() < 0.6:
+                v["mech"] = "taper_60"
+                v["soc"] = rng.choice([0.3, 0.3, 0.85, 0.95, 0.985, 0.999])
+        # and a few identical vehicles standing at the first station at the same charge level
+        level = rng.choice([0.2, 0.3, 0.5])
+        for k in range(rng.randint(2, 3)):
+            vehicles.append({"id": f"t{k+1}", "lat": cells[0][0], "lon": cells[0][1], "mech": rng.choice(["taper_60", "leaf_50"]) if k else "taper_60",
+                             "soc": level})
+        w["prices"] = prices + [{"time": 0, "target": s_["id"], "charger_id": cid, "price": 0.3}
+                                for s_ in stations[:2] for cid in ("DC20", "DC150")]
+        w["prices"].sort(key=lambda p_: p_["time"])
+    return w
 
 
 def gen_shift_world(rng: random.Random, n_steps: int, dt: Optional[int] = None) -> Dict[str, Any]:
